@@ -20,6 +20,7 @@ OBLIGATIONS = [
     (P + "app_at_most_once", "main() on the ready request at most once, exactly when the completion handler was called without error; handler called exactly once on every path; early main() at most once"),
     (P + "on_error_at_most_once", "filter on_error at most once, only after the early main(), only for a failed request, never together with on_end_of_content or a dispatch"),
     (P + "error_is_answered_or_closed", "a failed request is dropped or answered by exactly one error page with status 400..599 and eof, before the handler is told about the error; the application never sees it"),
+    (P + "connection_closes_after_error", "all three front-ends, all byte streams and segmentations: only the last outcome of a connection can be an error status, raw 400 or a dropped request; nothing is decoded from the connection afterwards"),
     (P + "actions_refine_outcome", "the Outcome the front-end models use (runRequest) is the summary of the action-level machine, reader state included"),
     (P + "counters_are_actions", "the four application-side counters the correspondence compares (early main, main, on_error, on_end_of_content), read off the model's Outcome, are the numbers of the corresponding actions"),
     (P + "readers_progress", "the content readers of the three front-ends deliver 1..want bytes on success (hypothesis of the action-level theorems)"),
